@@ -490,8 +490,10 @@ fs::path g_ban_dir;
 void init_c60_ban()
 {
     init_c60();
+    // the ban file is rewritten on every ban/unban: keep it on tmpfs when there is one
     const char* tmp = getenv("TMPDIR");
-    std::string base = std::string(tmp && *tmp ? tmp : "/tmp") + "/vh_c60_ban_" + std::to_string(getpid());
+    std::string root = (access("/dev/shm", W_OK) == 0) ? "/dev/shm" : (tmp && *tmp ? tmp : "/tmp");
+    std::string base = root + "/vh_c60_ban_" + std::to_string(getpid());
     g_ban_dir = fs::PathFromString(base);
     fs::create_directories(g_ban_dir);
     atexit([] { std::error_code ec; fs::remove_all(g_ban_dir, ec); });
